@@ -66,6 +66,8 @@ void LogContainer::uncompress() {
     switch (compressionMethod) {
     case 0: /* no compression */
         uncompressedFile = compressedFile;
+        if (uncompressedFile.size() != uncompressedFileSize)
+            throw Exception("LogContainer::uncompress(): unexpected uncompressedSize");
         break;
 
     case 2: { /* zlib compress */
